@@ -1,4 +1,10 @@
 
+(** val negb : bool -> bool **)
+
+let negb = function
+| true -> false
+| false -> true
+
 type nat =
 | O
 | S of nat
@@ -37,6 +43,40 @@ type z =
 | Z0
 | Zpos of positive
 | Zneg of positive
+
+module Pos =
+ struct
+  (** val eqb : positive -> positive -> bool **)
+
+  let rec eqb p q =
+    match p with
+    | XI p0 -> (match q with
+                | XI q0 -> eqb p0 q0
+                | _ -> false)
+    | XO p0 -> (match q with
+                | XO q0 -> eqb p0 q0
+                | _ -> false)
+    | XH -> (match q with
+             | XH -> true
+             | _ -> false)
+ end
+
+module Z =
+ struct
+  (** val eqb : z -> z -> bool **)
+
+  let eqb x y =
+    match x with
+    | Z0 -> (match y with
+             | Z0 -> true
+             | _ -> false)
+    | Zpos p -> (match y with
+                 | Zpos q -> Pos.eqb p q
+                 | _ -> false)
+    | Zneg p -> (match y with
+                 | Zneg q -> Pos.eqb p q
+                 | _ -> false)
+ end
 
 (** val map : ('a1 -> 'a2) -> 'a1 list -> 'a2 list **)
 
@@ -260,3 +300,77 @@ let keep loud = function
 
 let obs loud r =
   ((filter (keep loud) (fst r)), (snd r))
+
+(** val negate_op : z -> z option **)
+
+let negate_op op =
+  if Z.eqb op (Zpos (XO (XI XH)))
+  then Some (Zpos (XI (XI XH)))
+  else if Z.eqb op (Zpos (XI (XI XH)))
+       then Some (Zpos (XO (XI XH)))
+       else if Z.eqb op (Zpos (XO (XO (XO XH))))
+            then Some (Zpos (XI (XO (XO XH))))
+            else if Z.eqb op (Zpos (XI (XO (XO XH))))
+                 then Some (Zpos (XO (XO (XO XH))))
+                 else None
+
+type nexpr =
+| NPlain of fnode list
+| NNot of fnode list
+
+(** val handle_not : fnode list -> nexpr **)
+
+let handle_not ns = match ns with
+| [] -> NNot ns
+| f :: l ->
+  (match f with
+   | FBool b ->
+     (match l with
+      | [] -> NPlain ((FBool (negb b)) :: [])
+      | _ :: _ -> NNot ns)
+   | FCasc c ->
+     let (h, l0) = c in
+     (match l0 with
+      | [] -> NNot ns
+      | p :: l1 ->
+        let (op, r) = p in
+        (match l1 with
+         | [] ->
+           (match l with
+            | [] ->
+              (match negate_op op with
+               | Some op' -> NPlain ((FCasc (h, ((op', r) :: []))) :: [])
+               | None -> NNot ns)
+            | _ :: _ -> NNot ns)
+         | _ :: _ -> NNot ns)))
+
+(** val eval_nexpr :
+    (z -> val0 -> val0 -> (val0, exn) sum) -> (val0 -> (bool, exn) sum) ->
+    (bool -> val0) -> nexpr -> event list * val0 outcome **)
+
+let eval_nexpr cmp truth vbool = function
+| NPlain ns -> eval_nodes cmp truth vbool ns []
+| NNot ns ->
+  let (t, o) = eval_nodes cmp truth vbool ns [] in
+  (match o with
+   | OVal v ->
+     (match truth v with
+      | Inl b -> ((app t ((EvTruth v) :: [])), (OVal (vbool (negb b))))
+      | Inr x -> ((app t ((EvTruth v) :: [])), (ORaise x)))
+   | x -> (t, x))
+
+(** val run_not :
+    (z -> val0 -> val0 -> (val0, exn) sum) -> (val0 -> (bool, exn) sum) ->
+    (bool -> val0) -> (z -> val0 -> val0 -> bool option) -> bool -> chain ->
+    event list * val0 outcome **)
+
+let run_not cmp truth vbool ct tail_fix c =
+  eval_nexpr cmp truth vbool (handle_not (fold ct tail_fix false c))
+
+(** val ref_not :
+    (z -> val0 -> val0 -> (val0, exn) sum) -> (val0 -> (bool, exn) sum) ->
+    (bool -> val0) -> (z -> val0 -> val0 -> bool option) -> bool -> chain ->
+    event list * val0 outcome **)
+
+let ref_not cmp truth vbool ct tail_fix c =
+  eval_nexpr cmp truth vbool (NNot (fold ct tail_fix false c))
